@@ -413,12 +413,21 @@ func (f *Flooder) floodAdvertisementEncrypted(
 		fwdDisplayName = ""
 	}
 
+	// Account for the hop just taken: receivers add one for their own hop, so
+	// each forwarded route must carry the metric this agent recorded for it
+	// (received metric + 1). The received slice is left untouched.
+	fwdRoutes := make([]protocol.Route, len(routes))
+	for i, r := range routes {
+		r.Metric++
+		fwdRoutes[i] = r
+	}
+
 	// Build the advertise payload with extended path
 	adv := &protocol.RouteAdvertise{
 		OriginAgent:       originAgent,
 		OriginDisplayName: fwdDisplayName,
 		Sequence:          sequence,
-		Routes:            routes,
+		Routes:            fwdRoutes,
 		EncPath:           fwdEncPath,
 		SeenBy:            seenBy,
 	}
